@@ -185,33 +185,62 @@ theorem mapPush_new {β} (m : List (List Nat × List β)) (k : List Nat) (v : β
     simp only [this, Bool.false_eq_true, if_false, List.cons_append]
     rw [ih h.2]
 
-/-- What the pre-scan has collected after a prefix whose names are `seen`: one entry per name, in
-order, each with one location; `gmax` within the limit. -/
+theorem mapPush_keys {β} (m : List (List Nat × List β)) (k : List Nat) (v : β) (x : List Nat) :
+    x ∈ (mapPush m k v).map (·.1) ↔ x ∈ m.map (·.1) ∨ x = k := by
+  induction m with
+  | nil => simp [mapPush]
+  | cons e m ih =>
+    obtain ⟨k', vs⟩ := e
+    unfold mapPush
+    by_cases h : k' = k
+    · subst h
+      simp only [beq_self_eq_true, if_true, List.map_cons, List.mem_cons]
+      constructor
+      · rintro (h | h)
+        · exact .inl (.inl h)
+        · exact .inl (.inr h)
+      · rintro ((h | h) | h)
+        · exact .inl h
+        · exact .inr h
+        · exact .inl h
+    · have hb : (k' == k) = false := by simpa using h
+      simp only [hb, Bool.false_eq_true, if_false, List.map_cons, List.mem_cons, ih]
+      constructor
+      · rintro (h | h | h)
+        · exact .inl (.inl h)
+        · exact .inl (.inr h)
+        · exact .inr h
+      · rintro ((h | h) | h)
+        · exact .inl h
+        · exact .inr (.inl h)
+        · exact .inr (.inr h)
+
+/-- What the pre-scan has collected after a prefix whose names are `seen`: the keys of the two tables
+are the names seen; `gmax` within the limit. -/
 structure ScanInv (sc : Scan) (seen : List (List Nat)) : Prop where
-  lk : sc.locs.map (·.1) = seen
-  l1 : ∀ e ∈ sc.locs, ∃ p, e.2 = [p]
-  nk : sc.named.map (·.1) = seen
+  lk : ∀ x, x ∈ sc.locs.map (·.1) ↔ x ∈ seen
+  nk : ∀ x, x ∈ sc.named.map (·.1) ↔ x ∈ seen
   nok : NamedOK sc.named
   gm : sc.gmax ≤ Gen.MAX_CAPTURE_GROUPS
 
-/-- On the fragment (with pairwise distinct group names) the pre-scan collects `lexNames` and counts
+/-- On the fragment the pre-scan does not fail, collects `lexNames` and counts
 `capOpens` (saturating at `MAX_CAPTURE_GROUPS`). -/
 theorem scanLoop_frag (F : Feat) (fl : Flags) (hkv : (F.k || F.lk) = true → fl.unicodeSets = false)
     (hvv : F.vk = true → fl.unicodeSets = true ∧ F.k = false ∧ F.lk = false) :
     ∀ (fuel : Nat) (inp : List Nat) (sc : Scan) (seen : List (List Nat)),
     fragCore F inp = true → (F.nm = true → AllChar inp) → inp.length < fuel → ScanInv sc seen →
-    (seen ++ lexNames F.vk inp).Nodup →
     ∃ sc', scanLoop fl fuel inp sc = .ok sc' ∧ ScanInv sc' (seen ++ lexNames F.vk inp) ∧
-      sc'.gmax = min (sc.gmax + capOpens F.vk inp) Gen.MAX_CAPTURE_GROUPS := by
+      sc'.gmax = min (sc.gmax + capOpens F.vk inp) Gen.MAX_CAPTURE_GROUPS ∧
+      ((seen ++ lexNames F.vk inp).Nodup → (∀ e ∈ sc.locs, ∃ p, e.2 = [p]) → ∀ e ∈ sc'.locs, ∃ p, e.2 = [p]) := by
   intro fuel
   induction fuel with
   | zero => intro inp sc seen _ _ hf; omega
   | succ fuel ih =>
-    intro inp sc seen hfr hch hf hsi hnd
+    intro inp sc seen hfr hch hf hsi
     have hgm := hsi.gm
     unfold scanLoop
     rcases inp with _ | ⟨c, rest⟩
-    · exact ⟨sc, rfl, by rw [lexNames_nil, List.append_nil]; exact hsi, by rw [capOpens_nil]; omega⟩
+    · exact ⟨sc, rfl, by rw [lexNames_nil, List.append_nil]; exact hsi, by rw [capOpens_nil]; omega, fun _ h => h⟩
     · simp only [List.length_cons] at hf
       have hch' : F.nm = true → AllChar rest := fun h => (hch h).tail
       by_cases hc1 : c = 0x5C
@@ -219,18 +248,17 @@ theorem scanLoop_frag (F : Feat) (fl : Flags) (hkv : (F.k || F.lk) = true → fl
         subst hc1
         simp only [beq_self_eq_true, if_true]
         rcases rest with _ | ⟨x, r⟩
-        · rw [lexNames_bs_end] at hnd ⊢
+        · rw [lexNames_bs_end]
           rw [capOpens_bs_end]
           have := ih [] sc seen rfl (fun _ => by intro c hc; cases hc) (by simp; omega) hsi
-            (by rw [lexNames_nil]; exact hnd)
           rw [capOpens_nil, lexNames_nil] at this
           exact this
         · rw [fragCore_esc] at hfr
           simp only [Bool.and_eq_true] at hfr
           simp only [List.length_cons] at hf
-          rw [lexNames_esc] at hnd ⊢
+          rw [lexNames_esc]
           rw [capOpens_esc]
-          exact ih r sc seen hfr.2 (fun h => (hch' h).tail) (by omega) hsi hnd
+          exact ih r sc seen hfr.2 (fun h => (hch' h).tail) (by omega) hsi
       have e1 : (c == 0x5C) = false := by simp [hc1]
       by_cases hc2 : c = 0x5B
       · -- a class: skipped up to the closing bracket
@@ -249,22 +277,22 @@ theorem scanLoop_frag (F : Feat) (fl : Flags) (hkv : (F.k || F.lk) = true → fl
             unfold capOpens; rw [capGo_open]; exact hs1
           have hnam : lexNames true (0x5B :: rest) = lexNames true (skipBracketV rest 1) := by
             unfold lexNames; rw [namesGo_open]; exact hs2
-          rw [hvk] at hnd ih
-          rw [hnam] at hnd ⊢
+          rw [hvk] at ih
+          rw [hnam]
           rw [hcap]
           exact ih (skipBracketV rest 1) sc seen (hs3 hfr.2)
-            (fun h c hc => hch' h c ((skipBracketV_suffix rest 1).subset hc)) (by omega) hsi hnd
+            (fun h c hc => hch' h c ((skipBracketV_suffix rest 1).subset hc)) (by omega) hsi
         | false =>
         rw [hkv (by simpa [hvk] using hfr.1)]
         simp only [Bool.false_eq_true, if_false]
-        rw [hvk] at hnd ih
+        rw [hvk] at ih
         obtain ⟨hs1, hs2, hs3⟩ := skipBracket_scan F hvk rest
         have hlen := skipBracket_length rest
         have hcap : capOpens false (0x5B :: rest) = capOpens false (skipBracket rest) := by
           unfold capOpens; rw [capGo_open]; exact hs1
         have hnam : lexNames false (0x5B :: rest) = lexNames false (skipBracket rest) := by
           unfold lexNames; rw [namesGo_open]; exact hs2
-        rw [hnam] at hnd ⊢
+        rw [hnam]
         rw [hcap]
         have hsuf : ∀ l : List Nat, skipBracket l <:+ l := by
           intro l
@@ -275,7 +303,7 @@ theorem scanLoop_frag (F : Feat) (fl : Flags) (hkv : (F.k || F.lk) = true → fl
           | case4 c rest => exact List.suffix_cons _ _
           | case5 c rest _ _ ih => exact ih.trans (List.suffix_cons _ _)
         exact ih (skipBracket rest) sc seen (hs3 hfr.2)
-          (fun h c hc => hch' h c ((hsuf rest).subset hc)) (by omega) hsi hnd
+          (fun h c hc => hch' h c ((hsuf rest).subset hc)) (by omega) hsi
       have hpo := fragCore_head hc1 hc2 hfr
       have hfr' := fragCore_tail hc1 hc2 hfr
       have e2 : (c == 0x5B) = false := by simp [hc2]
@@ -288,29 +316,29 @@ theorem scanLoop_frag (F : Feat) (fl : Flags) (hkv : (F.k || F.lk) = true → fl
         · obtain ⟨rest2, rfl⟩ := hq
           simp only [List.length_cons] at hf
           have hfr2 : fragCore F rest2 = true := fragCore_tail (by decide) (by decide) hfr'
-          rw [lexNames_q] at hnd ⊢
+          rw [lexNames_q]
           rw [capOpens_q]
           obtain ⟨ro, r3, htc, hlen3⟩ := tryConsumeName_ok rest2
           cases ro with
           | none =>
             -- no group name
             have hna : namedAhead rest2 = none := by unfold namedAhead; rw [htc]
-            rw [hna] at hnd ⊢
+            rw [hna]
             simp only [Option.isSome_none, Bool.false_eq_true, if_false, Nat.zero_add, Option.toList_none,
-              List.nil_append] at hnd ⊢
+              List.nil_append]
             simp only [htc]
             rcases tryConsumeName_none htc with rfl | rfl
             · exact ih r3 _ seen hfr2 (fun h => (hch' h).tail) (by omega)
-                ⟨hsi.lk, hsi.l1, hsi.nk, hsi.nok, hsi.gm⟩ hnd
-            · rw [lexNames_plain _ _ (by decide) (by decide) (fun h => by cases h)] at hnd ⊢
+                ⟨hsi.lk, hsi.nk, hsi.nok, hsi.gm⟩
+            · rw [lexNames_plain _ _ (by decide) (by decide) (fun h => by cases h)]
               rw [capOpens_plain _ _ (by decide) (by decide) (by decide)]
               exact ih r3 _ seen (fragCore_tail (by decide) (by decide) hfr2) (fun h => (hch' h).tail.tail)
-                (by simp only [List.length_cons] at hf; omega) ⟨hsi.lk, hsi.l1, hsi.nk, hsi.nok, hsi.gm⟩ hnd
+                (by simp only [List.length_cons] at hf; omega) ⟨hsi.lk, hsi.nk, hsi.nok, hsi.gm⟩
           | some nm =>
             -- a named group
             have hna : namedAhead rest2 = some nm := by unfold namedAhead; rw [htc]
-            rw [hna] at hnd ⊢
-            simp only [Option.isSome_some, if_true, Option.toList_some] at hnd ⊢
+            rw [hna]
+            simp only [Option.isSome_some, if_true, Option.toList_some]
             simp only [htc]
             have hlt : ∃ r0, rest2 = 0x3C :: r0 := by
               rcases rest2 with _ | ⟨y, r9⟩
@@ -347,12 +375,8 @@ theorem scanLoop_frag (F : Feat) (fl : Flags) (hkv : (F.k || F.lk) = true → fl
               have := (hch' hnmF).tail
               rw [hp] at this; exact this.append_right
             have hfr3 : fragCore F r3 = true := by rw [hp] at hfr2; exact hnp.frag' hfr2
-            rw [hp, hnp.names_eq r3] at hnd ⊢
+            rw [hp, hnp.names_eq r3]
             rw [hnp.cap_eq r3]
-            have hnew : nm ∉ seen := by
-              have := (List.nodup_append.1 hnd).2.2 nm
-              intro hm
-              exact this hm nm (by simp) rfl
             have hstep : ∀ g, g ≤ Gen.MAX_CAPTURE_GROUPS →
                 (if g + 1 > Gen.MAX_CAPTURE_GROUPS then Gen.MAX_CAPTURE_GROUPS else g + 1) ≤ Gen.MAX_CAPTURE_GROUPS ∧
                 min ((if g + 1 > Gen.MAX_CAPTURE_GROUPS then Gen.MAX_CAPTURE_GROUPS else g + 1) + capOpens F.vk r3)
@@ -369,27 +393,33 @@ theorem scanLoop_frag (F : Feat) (fl : Flags) (hkv : (F.k || F.lk) = true → fl
                           altIdx := altInsert sc.altIdx (sc.parenDepth + 1) 0,
                           groupIds := altInsert sc.groupIds (sc.parenDepth + 1) sc.nextGroupId,
                           nextGroupId := sc.nextGroupId + 1 } (seen ++ [nm]) := by
-              refine ⟨?_, ?_, ?_, ?_, hs1⟩
-              · simp only
-                rw [mapPush_new _ _ _ (by rw [hsi.lk]; exact hnew)]
-                simp [hsi.lk]
-              · simp only
-                rw [mapPush_new _ _ _ (by rw [hsi.lk]; exact hnew)]
-                intro e he
-                rcases List.mem_append.1 he with h | h
-                · exact hsi.l1 e h
-                · simp at h; subst h; exact ⟨_, rfl⟩
-              · simp only
-                rw [mapPush_new _ _ _ (by rw [hsi.nk]; exact hnew)]
-                simp [hsi.nk]
+              refine ⟨?_, ?_, ?_, hs1⟩
+              · intro x
+                simp only
+                rw [mapPush_keys, hsi.lk x]
+                simp
+              · intro x
+                simp only
+                rw [mapPush_keys, hsi.nk x]
+                simp
               · exact mapPush_namedOK hsi.nok _ _
-            obtain ⟨sc', h1, h2, h3⟩ := ih r3 _ (seen ++ [nm]) hfr3
+            obtain ⟨sc', h1, h2, h3, h4⟩ := ih r3 _ (seen ++ [nm]) hfr3
               (fun _ => hch3) (by simp only [List.length_cons] at hf; omega) hsi'
-              (by simpa using hnd)
-            refine ⟨sc', h1, by simpa using h2, ?_⟩
-            rw [h3]; exact hs2
+            refine ⟨sc', h1, by simpa using h2, ?_, ?_⟩
+            · rw [h3]; exact hs2
+            · intro hnd hl1
+              have hnew : nm ∉ seen := by
+                intro hm
+                exact (List.nodup_append.1 hnd).2.2 nm hm nm (by simp) rfl
+              refine h4 (by simpa using hnd) ?_
+              simp only
+              rw [mapPush_new _ _ _ (fun h => hnew ((hsi.lk nm).1 h))]
+              intro e he
+              rcases List.mem_append.1 he with h | h
+              · exact hl1 e h
+              · simp at h; subst h; exact ⟨_, rfl⟩
         · have hne : ∀ r2, rest ≠ 0x3F :: r2 := fun r2 e => hq ⟨r2, e⟩
-          rw [lexNames_plain _ _ (by decide) (by decide) (fun _ => hne)] at hnd ⊢
+          rw [lexNames_plain _ _ (by decide) (by decide) (fun _ => hne)]
           rw [capOpens_cap _ hne]
           have hstep : ∀ g, g ≤ Gen.MAX_CAPTURE_GROUPS →
               (if g + 1 > Gen.MAX_CAPTURE_GROUPS then Gen.MAX_CAPTURE_GROUPS else g + 1) ≤ Gen.MAX_CAPTURE_GROUPS ∧
@@ -399,37 +429,91 @@ theorem scanLoop_frag (F : Feat) (fl : Flags) (hkv : (F.k || F.lk) = true → fl
           obtain ⟨hs1, hs2⟩ := hstep sc.gmax hgm
           rcases rest with _ | ⟨y, r2⟩
           · simp only
-            obtain ⟨sc', h1, h2, h3⟩ := ih []
+            obtain ⟨sc', h1, h2, h3, h4⟩ := ih []
               { sc with gmax := if sc.gmax + 1 > Gen.MAX_CAPTURE_GROUPS then Gen.MAX_CAPTURE_GROUPS
                                 else sc.gmax + 1,
                         parenDepth := sc.parenDepth + 1,
                         altIdx := altInsert sc.altIdx (sc.parenDepth + 1) 0,
                         groupIds := altInsert sc.groupIds (sc.parenDepth + 1) sc.nextGroupId,
                         nextGroupId := sc.nextGroupId + 1 } seen hfr' hch' (by simp; omega)
-              ⟨hsi.lk, hsi.l1, hsi.nk, hsi.nok, hs1⟩ hnd
-            exact ⟨sc', h1, h2, by rw [h3]; exact hs2⟩
+              ⟨hsi.lk, hsi.nk, hsi.nok, hs1⟩
+            exact ⟨sc', h1, h2, by rw [h3]; exact hs2, h4⟩
           · have hy : y ≠ 0x3F := fun e => hne r2 (by rw [e])
             simp only [hy]
-            obtain ⟨sc', h1, h2, h3⟩ := ih (y :: r2)
+            obtain ⟨sc', h1, h2, h3, h4⟩ := ih (y :: r2)
               { sc with gmax := if sc.gmax + 1 > Gen.MAX_CAPTURE_GROUPS then Gen.MAX_CAPTURE_GROUPS
                                 else sc.gmax + 1,
                         parenDepth := sc.parenDepth + 1,
                         altIdx := altInsert sc.altIdx (sc.parenDepth + 1) 0,
                         groupIds := altInsert sc.groupIds (sc.parenDepth + 1) sc.nextGroupId,
                         nextGroupId := sc.nextGroupId + 1 } seen hfr' hch' (by omega)
-              ⟨hsi.lk, hsi.l1, hsi.nk, hsi.nok, hs1⟩ hnd
-            exact ⟨sc', h1, h2, by rw [h3]; exact hs2⟩
+              ⟨hsi.lk, hsi.nk, hsi.nok, hs1⟩
+            exact ⟨sc', h1, h2, by rw [h3]; exact hs2, h4⟩
       · have e3 : (c == 0x28) = false := by simp [hp]
         simp only [e3, Bool.false_eq_true, if_false]
-        rw [lexNames_plain _ _ hc1 hc2 (fun h => absurd h hp)] at hnd ⊢
+        rw [lexNames_plain _ _ hc1 hc2 (fun h => absurd h hp)]
         rw [capOpens_plain _ _ hp hc1 hc2]
         split
         · split
-          · exact ih rest _ seen hfr' hch' (by omega) ⟨hsi.lk, hsi.l1, hsi.nk, hsi.nok, hsi.gm⟩ hnd
-          · exact ih rest sc seen hfr' hch' (by omega) hsi hnd
+          · exact ih rest _ seen hfr' hch' (by omega) ⟨hsi.lk, hsi.nk, hsi.nok, hsi.gm⟩
+          · exact ih rest sc seen hfr' hch' (by omega) hsi
         · split
-          · exact ih rest _ seen hfr' hch' (by omega) ⟨hsi.lk, hsi.l1, hsi.nk, hsi.nok, hsi.gm⟩ hnd
-          · exact ih rest sc seen hfr' hch' (by omega) hsi hnd
+          · exact ih rest _ seen hfr' hch' (by omega) ⟨hsi.lk, hsi.nk, hsi.nok, hsi.gm⟩
+          · exact ih rest sc seen hfr' hch' (by omega) hsi
+
+/-- The crate's verdict on duplicate group names: the locations the pre-scan collects fail
+`check_duplicate_conflicts` (`true`; also when the pre-scan itself fails) or pass it (`false`). -/
+def crateDup (v : Bool) (pat : List Nat) : Bool :=
+  match scanLoop { unicodeSets := v } (pat.length + 1) pat {} with
+  | .ok sc => sc.locs.any (fun e => anyConflict e.2)
+  | .error _ => true
+
+/-- The pre-scan looks at the flag `v` only. -/
+theorem scanLoop_flags (fl fl' : Flags) (h : fl.unicodeSets = fl'.unicodeSets) :
+    ∀ (fuel : Nat) (inp : List Nat) (sc : Scan), scanLoop fl fuel inp sc = scanLoop fl' fuel inp sc := by
+  intro fuel
+  induction fuel with
+  | zero => intro inp sc; rfl
+  | succ fuel ih =>
+    intro inp sc
+    unfold scanLoop
+    simp only [ih, h]
+
+/-- On the fragment the pre-scan fails exactly when it finds conflicting duplicate names; otherwise it
+sets `groupCountMax` to the lexical group count and builds a name table whose keys are the lexical
+names. -/
+theorem parseCaptureGroups_frag (F : Feat) (st : PState) (h : fragCore F st.input = true)
+    (hch : F.nm = true → AllChar st.input)
+    (hkv : (F.k || F.lk) = true → st.flags.unicodeSets = false)
+    (hvv : F.vk = true → st.flags.unicodeSets = true ∧ F.k = false ∧ F.lk = false)
+    (h0 : st.groupCountMax = 0) (hn0 : st.named = []) :
+    ∃ N, (∀ x, x ∈ N.map (·.1) ↔ x ∈ lexNames F.vk st.input) ∧ NamedOK N ∧
+      (crateDup st.flags.unicodeSets st.input = false → parseCaptureGroups st =
+        .ok { st with groupCountMax := min (capOpens F.vk st.input) Gen.MAX_CAPTURE_GROUPS, named := N }) ∧
+      (crateDup st.flags.unicodeSets st.input = true → ∃ e, parseCaptureGroups st = .error e) := by
+  have hsi0 : ScanInv { named := st.named, gmax := st.groupCountMax } [] := by
+    refine ⟨?_, ?_, ?_, ?_⟩
+    · intro x; simp
+    · intro x; simp only [hn0]; simp
+    · simp only [hn0]; intro e he; cases he
+    · simp only [h0]; exact Nat.zero_le _
+  obtain ⟨sc', h1, h2, h4, _⟩ := scanLoop_frag F st.flags hkv hvv (st.input.length + 1) st.input
+    { named := st.named, gmax := st.groupCountMax } [] h hch (by omega) hsi0
+  have hsc : ({ named := st.named, gmax := st.groupCountMax } : Scan) = {} := by rw [hn0, h0]
+  have hcd : crateDup st.flags.unicodeSets st.input = sc'.locs.any (fun e => anyConflict e.2) := by
+    unfold crateDup
+    rw [scanLoop_flags { unicodeSets := st.flags.unicodeSets } st.flags rfl, ← hsc, h1]
+  refine ⟨sc'.named, by simpa using h2.nk, h2.nok, fun hd => ?_, fun hd => ?_⟩
+  · unfold parseCaptureGroups
+    rw [h1]
+    rw [hcd] at hd
+    simp only [hd, Bool.false_eq_true, if_false]
+    rw [h4, h0, Nat.zero_add]
+  · unfold parseCaptureGroups
+    rw [h1]
+    rw [hcd] at hd
+    simp only [hd, if_true]
+    exact ⟨_, rfl⟩
 
 theorem anyConflict_singletons {β} (locs : List (β × List (List (Nat × Nat))))
     (h : ∀ e ∈ locs, ∃ p, e.2 = [p]) : locs.any (fun e => anyConflict e.2) = false := by
@@ -439,30 +523,125 @@ theorem anyConflict_singletons {β} (locs : List (β × List (List (Nat × Nat))
   rw [hp]
   simp [anyConflict]
 
-/-- On the fragment (group names pairwise distinct) the pre-scan succeeds; it sets `groupCountMax` to
-the lexical group count and builds a name table whose keys are the lexical names. -/
-theorem parseCaptureGroups_frag (F : Feat) (st : PState) (h : fragCore F st.input = true)
-    (hch : F.nm = true → AllChar st.input)
-    (hkv : (F.k || F.lk) = true → st.flags.unicodeSets = false)
-    (hvv : F.vk = true → st.flags.unicodeSets = true ∧ F.k = false ∧ F.lk = false)
-    (h0 : st.groupCountMax = 0) (hn0 : st.named = [])
-    (hnd : (lexNames F.vk st.input).Nodup) :
-    ∃ N, parseCaptureGroups st =
-        .ok { st with groupCountMax := min (capOpens F.vk st.input) Gen.MAX_CAPTURE_GROUPS, named := N } ∧
-      N.map (·.1) = lexNames F.vk st.input ∧ NamedOK N := by
-  have hsi0 : ScanInv { named := st.named, gmax := st.groupCountMax } [] := by
-    refine ⟨rfl, ?_, ?_, ?_, ?_⟩
-    · intro e he; cases he
-    · simp only [hn0]; rfl
-    · simp only [hn0]; intro e he; cases he
-    · simp only [h0]; exact Nat.zero_le _
-  obtain ⟨sc', h1, h2, h4⟩ := scanLoop_frag F st.flags hkv hvv (st.input.length + 1) st.input
-    { named := st.named, gmax := st.groupCountMax } [] h hch (by omega) hsi0 (by simpa using hnd)
-  refine ⟨sc'.named, ?_, by simpa using h2.nk, h2.nok⟩
-  unfold parseCaptureGroups
-  rw [h1]
-  simp only [anyConflict_singletons _ h2.l1, Bool.false_eq_true, if_false]
-  rw [h4, h0, Nat.zero_add]
+/-- Pairwise distinct group names: the crate's duplicate check passes. -/
+theorem crateDup_nodup (F : Feat) (fl : Flags) (hkv : (F.k || F.lk) = true → fl.unicodeSets = false)
+    (hvv : F.vk = true → fl.unicodeSets = true ∧ F.k = false ∧ F.lk = false) (pat : List Nat)
+    (hfr : fragCore F pat = true) (hch : F.nm = true → AllChar pat) (hnd : (lexNames F.vk pat).Nodup) :
+    crateDup fl.unicodeSets pat = false := by
+  obtain ⟨sc', h1, _, _, h5⟩ := scanLoop_frag F fl hkv hvv (pat.length + 1) pat {} [] hfr hch (by omega)
+    ⟨fun x => (by simp), fun x => (by simp), fun e he => (by cases he), Nat.zero_le _⟩
+  unfold crateDup
+  rw [scanLoop_flags { unicodeSets := fl.unicodeSets } fl rfl, h1]
+  exact anyConflict_singletons _ (h5 (by simpa using hnd) (fun e he => by cases he))
+
+theorem namesGo_q0 (v : Bool) (r : List Nat) :
+    namesGo v 0 (0x28 :: 0x3F :: r) = (namedAhead r).toList ++ namesGo v 0 r := lexNames_q v r
+
+theorem namesGo_plain0 (v : Bool) {c : Nat} (r : List Nat) (h2 : c ≠ 0x5C) (h3 : c ≠ 0x5B)
+    (h1 : c = 0x28 → ∀ r', r ≠ 0x3F :: r') : namesGo v 0 (c :: r) = namesGo v 0 r := lexNames_plain v r h2 h3 h1
+
+/-- Pairwise distinct group names: the scope scanner accepts. -/
+theorem scopeGo_nodup (v : Bool) : ∀ (d : Nat) (stk : List Frame) (cur : List (List Nat)) (l : List Nat),
+    (namesGo v d l).Nodup → (∀ x ∈ cur, x ∉ namesGo v d l) →
+    (∀ fr ∈ stk, ∀ x, (x ∈ fr.1 ∨ x ∈ fr.2) → x ∉ namesGo v d l) → scopeGo v d stk cur l = true := by
+  intro d stk cur l
+  fun_induction scopeGo v d stk cur l with
+  | case1 => intros; rfl
+  | case2 d stk cur x r ih => rw [namesGo_esc]; exact ih
+  | case3 d stk cur r ih => rw [namesGo_close]; exact ih
+  | case4 d stk cur r h ih => subst h; rw [namesGo_nest]; exact ih
+  | case5 d stk cur r h ih =>
+    have hv : v = false := by simpa using h
+    subst hv
+    rw [namesGo_in false d r (by decide) (by decide) (.inl rfl)]; exact ih
+  | case6 d stk cur c r h1 h2 h3 ih =>
+    rw [namesGo]
+    · exact ih
+    all_goals assumption
+  | case7 => intros; rfl
+  | case8 stk cur x r ih => rw [namesGo_esc]; exact ih
+  | case9 stk cur r ih => rw [namesGo_open]; exact ih
+  | case10 stk cur r nm hna ih =>
+    rw [namesGo_q0, hna]
+    simp only [Option.toList_some, List.singleton_append, List.nodup_cons, List.mem_cons, not_or]
+    intro hnd hc hs
+    have h1 : cur.contains nm = false := by
+      cases hcn : cur.contains nm with
+      | false => rfl
+      | true => exact absurd rfl (hc nm (by simpa using hcn)).1
+    rw [h1]
+    simp only [Bool.not_false, Bool.true_and]
+    refine ih hnd.2 ?_ ?_
+    · intro x hx
+      rcases List.mem_cons.1 hx with hx | hx
+      · rw [hx]; exact hnd.1
+      · exact (hc x hx).2
+    · intro fr hfr x hx
+      rcases List.mem_cons.1 hfr with rfl | hfr
+      · rcases hx with hx | hx
+        · rcases List.mem_cons.1 hx with hx | hx
+          · rw [hx]; exact hnd.1
+          · exact (hc x hx).2
+        · cases hx
+      · exact (hs fr hfr x hx).2
+  | case11 stk cur r hna ih =>
+    rw [namesGo_q0, hna]
+    simp only [Option.toList_none, List.nil_append]
+    intro hnd hc hs
+    refine ih hnd hc ?_
+    intro fr hfr x hx
+    rcases List.mem_cons.1 hfr with rfl | hfr
+    · rcases hx with hx | hx
+      · exact hc x hx
+      · cases hx
+    · exact hs fr hfr x hx
+  | case12 stk cur r hq ih =>
+    rw [namesGo_plain0 v r (by decide) (by decide) (fun _ r' h => hq r' h)]
+    intro hnd hc hs
+    refine ih hnd hc ?_
+    intro fr hfr x hx
+    rcases List.mem_cons.1 hfr with rfl | hfr
+    · rcases hx with hx | hx
+      · exact hc x hx
+      · cases hx
+    · exact hs fr hfr x hx
+  | case13 cur r sv acc rest ih =>
+    rw [namesGo_plain0 v r (by decide) (by decide) (fun h => by cases h)]
+    intro hnd hc hs
+    refine ih hnd (fun x hx => hs (sv, acc) (by simp) x (.inl hx)) ?_
+    intro fr hfr x hx
+    rcases List.mem_cons.1 hfr with rfl | hfr
+    · rcases hx with hx | hx
+      · exact hs (sv, acc) (by simp) x (.inl hx)
+      · rcases List.mem_append.1 hx with hx | hx
+        · exact hs (sv, acc) (by simp) x (.inr hx)
+        · exact hc x hx
+    · exact hs fr (by simp [hfr]) x hx
+  | case14 cur r ih =>
+    rw [namesGo_plain0 v r (by decide) (by decide) (fun h => by cases h)]
+    intro hnd hc hs
+    exact ih hnd hc hs
+  | case15 cur r sv acc fr rest ih =>
+    rw [namesGo_plain0 v r (by decide) (by decide) (fun h => by cases h)]
+    intro hnd hc hs
+    refine ih hnd ?_ (fun fr' hfr x hx => hs fr' (List.mem_cons_of_mem _ hfr) x hx)
+    intro x hx
+    rcases List.mem_append.1 hx with hx | hx
+    · exact hs (sv, acc) (by simp) x (.inr hx)
+    · exact hc x hx
+  | case16 stk cur r _ ih =>
+    rw [namesGo_plain0 v r (by decide) (by decide) (fun h => by cases h)]
+    intro hnd hc hs
+    exact ih hnd hc hs
+  | case17 stk cur c r h1 h2 h3 h4 h5 h6 ih =>
+    rw [namesGo]
+    · exact ih
+    all_goals assumption
+
+theorem scopeOk_nodup (v : Bool) (pat : List Nat) (h : (lexNames v pat).Nodup) : scopeOk v pat = true :=
+  scopeGo_nodup v 0 _ _ pat h (fun x hx => by cases hx) (fun fr hfr x hx => by
+    rcases List.mem_singleton.1 hfr with rfl
+    rcases hx with hx | hx <;> cases hx)
 
 /-! ## `try_parse` -/
 
@@ -504,34 +683,48 @@ theorem parseBody_isOk (st : PState) (hi : Inv st) :
 /-- The flags `parse` works with. -/
 def effFlags (fl : Flags) : Flags := if fl.unicodeSets then { fl with unicode := true } else fl
 
-/-- `parse` answers `Ok` exactly when the descent (from the state the pre-scan leaves) consumes the
-whole pattern. -/
+theorem effFlags_usets (fl : Flags) : (effFlags fl).unicodeSets = fl.unicodeSets := by
+  unfold effFlags; split <;> rfl
+
+/-- `parse` fails when the pre-scan finds conflicting duplicate names; otherwise it answers `Ok` exactly
+when the descent (from the state the pre-scan leaves) consumes the whole pattern. -/
 theorem parse_isOk_iff (F : Feat) (pat : List Nat) (fl : Flags) (hb : Bnd pat) (hfr : fragCore F pat = true)
     (hch : F.nm = true → AllChar pat) (hkv : (F.k || F.lk) = true → fl.unicodeSets = false)
-    (hvv : F.vk = true → fl.unicodeSets = true ∧ F.k = false ∧ F.lk = false)
-    (hnd : (lexNames F.vk pat).Nodup) :
-    ∃ N, N.map (·.1) = lexNames F.vk pat ∧ NamedOK N ∧
-      ((parse pat fl).isOk = true ↔
-        ∃ nd st1, consumeDisjunction (parseFuel pat)
-          { input := pat, flags := effFlags fl,
-            groupCountMax := min (capOpens F.vk pat) Gen.MAX_CAPTURE_GROUPS, named := N } = .ok (nd, st1) ∧
-          st1.input = []) := by
+    (hvv : F.vk = true → fl.unicodeSets = true ∧ F.k = false ∧ F.lk = false) :
+    ∃ N, (∀ x, x ∈ N.map (·.1) ↔ x ∈ lexNames F.vk pat) ∧ NamedOK N ∧
+      (crateDup fl.unicodeSets pat = false →
+        ((parse pat fl).isOk = true ↔
+          ∃ nd st1, consumeDisjunction (parseFuel pat)
+            { input := pat, flags := effFlags fl,
+              groupCountMax := min (capOpens F.vk pat) Gen.MAX_CAPTURE_GROUPS, named := N } = .ok (nd, st1) ∧
+            st1.input = [])) ∧
+      (crateDup fl.unicodeSets pat = true → (parse pat fl).isOk = false) := by
   have hkv' : (F.k || F.lk) = true → (effFlags fl).unicodeSets = false := fun h => by
-    unfold effFlags; rw [hkv h]; exact hkv h
-  obtain ⟨N, hg, hN, hNok⟩ := parseCaptureGroups_frag F { input := pat, flags := effFlags fl } hfr hch hkv'
-    (fun h => ⟨by unfold effFlags; rw [(hvv h).1]; rfl, (hvv h).2⟩) rfl rfl hnd
-  refine ⟨N, hN, hNok, ?_⟩
-  have hpe : parse pat fl = parseBody
-      { input := pat, flags := effFlags fl, groupCountMax := min (capOpens F.vk pat) Gen.MAX_CAPTURE_GROUPS,
-        named := N } := by
-    unfold parse tryParse
-    simp only
-    unfold effFlags at hg
-    rw [hg]
+    rw [effFlags_usets]; exact hkv h
+  obtain ⟨N, hN, hNok, hg1, hg2⟩ := parseCaptureGroups_frag F { input := pat, flags := effFlags fl } hfr hch hkv'
+    (fun h => ⟨by rw [effFlags_usets]; exact (hvv h).1, (hvv h).2⟩) rfl rfl
+  simp only [effFlags_usets] at hg1 hg2
+  refine ⟨N, hN, hNok, fun hd => ?_, fun hd => ?_⟩
+  · have hg := hg1 hd
+    have hpe : parse pat fl = parseBody
+        { input := pat, flags := effFlags fl, groupCountMax := min (capOpens F.vk pat) Gen.MAX_CAPTURE_GROUPS,
+          named := N } := by
+      unfold parse tryParse
+      simp only
+      unfold effFlags at hg
+      rw [hg]
+      rfl
+    rw [hpe]
+    exact parseBody_isOk _ ⟨hNok, by simp [Gen.MAX_NESTING_DEPTH],
+      by simp [Gen.MAX_CAPTURE_GROUPS], by simp [Gen.MAX_LOOPS], hb⟩
+  · obtain ⟨e, he⟩ := hg2 hd
+    have hpe : parse pat fl = .error e := by
+      unfold parse tryParse
+      simp only
+      unfold effFlags at he
+      rw [he]
+    rw [hpe]
     rfl
-  rw [hpe]
-  exact parseBody_isOk _ ⟨hNok, by simp [Gen.MAX_NESTING_DEPTH],
-    by simp [Gen.MAX_CAPTURE_GROUPS], by simp [Gen.MAX_LOOPS], hb⟩
 
 /-! ## `parsePattern`, and the two joined -/
 
@@ -768,13 +961,14 @@ theorem mapGet_append {β} (m m' : List (List Nat × β)) (k : List Nat) :
     · rfl
     · exact ih
 
-/-- The descent from the state the pre-scan leaves, against `parsePattern`. -/
+/-- The descent from the state the pre-scan leaves, against `parsePattern`: when the scope scanner
+accepts the pattern the two agree, otherwise the grammar rejects it. -/
 theorem frag_core (F : Feat) (c : Cfg) (pat : List Nat) (fl' : Flags) (N : List (List Nat × List Nat))
     (hu : c.u = fl'.unicode)
     (hmode : c.u = true → c.n = true)
     (heu : F.e = true → fl'.unicode = true)
     (hkk : F.k = true → F.e = true ∧ fl'.unicode = true ∧ c.v = false ∧ fl'.unicodeSets = false ∧ F.vk = false)
-    (hnn : F.nm = true → c.t = tabs) (hmd : F.md = true → c.feat25 = true)
+    (hnn : F.nm = true → c.t = tabs ∧ c.feat25 = true) (hmd : F.md = true → c.feat25 = true)
     (hpr : F.pr = true → c.t = tabs ∧ c.v = fl'.unicodeSets)
     (hle : F.le = true → fl'.unicode = false ∧ fl'.unicodeSets = false ∧ (F.nm = false → c.n = false))
     (hlk : F.lk = true → fl'.unicode = false ∧ c.v = false ∧ fl'.unicodeSets = false ∧ F.vk = false ∧
@@ -783,11 +977,13 @@ theorem frag_core (F : Feat) (c : Cfg) (pat : List Nat) (fl' : Flags) (N : List 
       md true pat + brk pat ≤ 255)
     (hch : F.e = true ∨ F.nm = true → ∀ c ∈ pat, Parse.isChar c = true)
     (hfr : fragCore F pat = true) (hlim : withinLimits pat = true)
-    (hN : N.map (·.1) = lexNames F.vk pat) (hNok : NamedOK N) (hnd : (lexNames F.vk pat).Nodup) :
-    ((∃ nd st1, consumeDisjunction (parseFuel pat)
-        { input := pat, flags := fl', groupCountMax := min (capOpens F.vk pat) Gen.MAX_CAPTURE_GROUPS, named := N } =
-          .ok (nd, st1) ∧ st1.input = []) ↔
-      ∃ st, parsePattern c pat = .ok st) ∧
+    (hN : ∀ x, x ∈ N.map (·.1) ↔ x ∈ lexNames F.vk pat) (hNok : NamedOK N) :
+    ((scopeOk F.vk pat = true →
+      ((∃ nd st1, consumeDisjunction (parseFuel pat)
+          { input := pat, flags := fl', groupCountMax := min (capOpens F.vk pat) Gen.MAX_CAPTURE_GROUPS, named := N } =
+            .ok (nd, st1) ∧ st1.input = []) ↔
+        ∃ st, parsePattern c pat = .ok st)) ∧
+      (scopeOk F.vk pat = false → ¬ ∃ st, parsePattern c pat = .ok st)) ∧
     (∀ st, parsePattern c pat = .ok st → st.names.reverse = lexNames F.vk pat) ∧ parsePattern c pat ≠ .fuel := by
   simp only [withinLimits, Bool.and_eq_true, decide_eq_true_eq] at hlim
   obtain ⟨⟨hl1, hl2⟩, hl3⟩ := hlim
@@ -804,30 +1000,30 @@ theorem frag_core (F : Feat) (c : Cfg) (pat : List Nat) (fl' : Flags) (N : List 
   -- count and a larger table
   have hrun : ∀ (G : Nat) (N' : List (List Nat × List Nat)), NamedOK N' →
       ((F.le = true ∨ F.lk = true) → F.nm = false → N' = []) →
-      Out ⟨G, capOpens F.vk pat, N', lexNames F.vk pat, fl'.unicodeSets⟩ (disj c (8 * (pat.length + 2)) pat {})
+      Out ⟨G, capOpens F.vk pat, N', lexNames F.vk pat, fl'.unicodeSets, scopeOk F.vk pat⟩ (disj c (8 * (pat.length + 2)) pat {})
       (fun r est' => ∃ ts st', disjLoop (4 * pat.length + 7)
           { input := pat, flags := fl', groupCountMax := G, named := N', depth := 0 + 1 } [] = .ok (ts, st') ∧
-        CR F fl'.unicode ⟨G, capOpens F.vk pat, N', lexNames F.vk pat, fl'.unicodeSets⟩
+        CR F fl'.unicode ⟨G, capOpens F.vk pat, N', lexNames F.vk pat, fl'.unicodeSets, scopeOk F.vk pat⟩
           { input := pat, flags := fl', groupCountMax := G, named := N', depth := 0 + 1 } r st' ∧
-        Joint F ⟨G, capOpens F.vk pat, N', lexNames F.vk pat, fl'.unicodeSets⟩ est' st')
+        JointD F ⟨G, capOpens F.vk pat, N', lexNames F.vk pat, fl'.unicodeSets, scopeOk F.vk pat⟩ [] [] [] est' st')
       (IsSyn (disjLoop (4 * pat.length + 7)
           { input := pat, flags := fl', groupCountMax := G, named := N', depth := 0 + 1 } [])) := by
     intro G N' hN' hN0
-    have hD := (sim_all (c := c) (F := F) (u := fl'.unicode) ⟨G, capOpens F.vk pat, N', lexNames F.vk pat, fl'.unicodeSets⟩ hu heu
+    have hD := (sim_all (c := c) (F := F) (u := fl'.unicode) ⟨G, capOpens F.vk pat, N', lexNames F.vk pat, fl'.unicodeSets, scopeOk F.vk pat⟩ hu heu
       (fun h => ⟨(hkk h).1, (hkk h).2.1, (hkk h).2.2.1, (hkk h).2.2.2.2⟩) hnn hmd hpr
       (fun h => ⟨(hle h).1, (hle h).2.1, fun hn => ⟨(hle h).2.2 hn, hN0 (.inl h) hn⟩⟩)
       (fun h => ⟨(hlk h).1, (hlk h).2.1, (hlk h).2.2.1, (hlk h).2.2.2.1,
         fun hn => ⟨(hlk h).2.2.2.2 hn, hN0 (.inr h) hn⟩⟩)
-      (fun h => ⟨(hvc h).1, (hvc h).2.1, (hvc h).2.2.1, (hvc h).2.2.2.1, (hvc h).2.2.2.2.1⟩) hnd
+      (fun h => ⟨(hvc h).1, (hvc h).2.1, (hvc h).2.2.1, (hvc h).2.2.2.1, (hvc h).2.2.2.2.1⟩)
       (8 * (pat.length + 2))).1
-    have he0 : EInv ⟨G, capOpens F.vk pat, N', lexNames F.vk pat, fl'.unicodeSets⟩ ({} : ESG.St) := by
+    have he0 : EInv ⟨G, capOpens F.vk pat, N', lexNames F.vk pat, fl'.unicodeSets, scopeOk F.vk pat⟩ ({} : ESG.St) := by
       refine ⟨by simp, ?_, ?_⟩
       · intro r hr; cases hr
       · intro x hx; cases hx
     exact hD pat {} (by omega) he0 (4 * pat.length + 7)
       { input := pat, flags := fl', groupCountMax := G, named := N', depth := 0 + 1 } [] (by omega) rfl
       ⟨rfl, fun h => (hkk h).2.2.2.1, hfr, hch, by simp only; omega, by simp only; omega, by simp only; omega, rfl,
-        by simp, rfl, hN', rfl⟩ ⟨rfl, by simp⟩
+        by simp, rfl, hN', rfl⟩ [] [] [] (SEq.refl _) ⟨rfl, by simp, List.cons_ne_nil _ _, [], SEq.refl _, rfl⟩
   have hleg : F.le = true ∨ F.lk = true → fl'.unicode = false ∧ (F.nm = false → c.n = false) := by
     rintro (h | h)
     · exact ⟨(hle h).1, (hle h).2.2⟩
@@ -836,7 +1032,9 @@ theorem frag_core (F : Feat) (c : Cfg) (pat : List Nat) (fl' : Flags) (N : List 
     intro h hn
     have := lexNames_nil_of_frag F hn hfr
     rw [this] at hN
-    exact List.map_eq_nil_iff.1 hN
+    rcases N with _ | ⟨e, N⟩
+    · rfl
+    · exact absurd ((hN e.1).1 (by simp)) (by simp)
   have hD' := hrun (capOpens F.vk pat) N hNok hNnil
   have hpf : parseFuel pat = (4 * pat.length + 7) + 1 := by unfold parseFuel; omega
   have hdep : ({ input := pat, flags := fl', groupCountMax := capOpens F.vk pat, named := N } : PState).depth + 1 ≤
@@ -847,9 +1045,11 @@ theorem frag_core (F : Feat) (c : Cfg) (pat : List Nat) (fl' : Flags) (N : List 
   | fuel => rw [hd] at hD'; exact hD'.elim
   | bad =>
     rw [hd] at hD'
-    obtain ⟨msg, hm⟩ := hD'
-    rw [cd_err hdep hm]
-    simp
+    rcases hD' with ⟨msg, hm⟩ | hB0
+    · rw [cd_err hdep hm]
+      simp
+    · simp only at hB0
+      simp [hB0]
   | ok p =>
     obtain ⟨r, est'⟩ := p
     rw [hd] at hD'
@@ -892,6 +1092,10 @@ theorem frag_core (F : Feat) (c : Cfg) (pat : List Nat) (fl' : Flags) (N : List 
     · rw [cd_ok hdep hl]
       rcases r with _ | ⟨y, r'⟩
       · obtain ⟨hgr, hnms⟩ := hfull rfl
+        have hBt : scopeOk F.vk pat = true := by
+          obtain ⟨acc', cur', _, hs'⟩ := hg'.scope
+          rw [hr, scopeGo_nil] at hs'
+          exact hs'.symm
         have hmd := he'.maxDec
         have hchk : ((!c.u || decide (est'.maxDec ≤ est'.groups)) &&
             (!c.n || est'.refs.all fun nm => est'.names.contains nm)) = true := by
@@ -902,21 +1106,22 @@ theorem frag_core (F : Feat) (c : Cfg) (pat : List Nat) (fl' : Flags) (N : List 
             intro x hx
             have := he'.refs x hx
             simp only at this
-            rw [mapGet_isSome_iff, hN, ← hnms] at this
+            rw [mapGet_isSome_iff, hN x, ← hnms] at this
             rw [List.contains_eq_mem]
             simpa using this
           rw [h2]; simp [h1]
         simp only [hchk, if_true]
-        refine ⟨⟨fun _ => ⟨est', rfl⟩, fun _ => ⟨_, _, rfl, hr⟩⟩, ?_, by simp⟩
+        refine ⟨⟨fun _ => ⟨fun _ => ⟨est', rfl⟩, fun _ => ⟨_, _, rfl, hr⟩⟩, fun h => by rw [hBt] at h; cases h⟩, ?_, by simp⟩
         intro st hst
         cases hst
         exact hnms
       · simp only
-        refine ⟨⟨?_, ?_⟩, ?_, by simp⟩
+        refine ⟨⟨fun _ => ⟨?_, ?_⟩, fun _ => ?_⟩, ?_, by simp⟩
         · rintro ⟨nd, st1, he, h1⟩
           cases he
           simp only at h1
           rw [hr] at h1; cases h1
+        · rintro ⟨st, hst⟩; cases hst
         · rintro ⟨st, hst⟩; cases hst
         · intro st hst; cases hst
     · -- a decimal escape beyond the group count, or a reference to a name that is not in the table:
@@ -955,18 +1160,20 @@ theorem frag_core (F : Feat) (c : Cfg) (pat : List Nat) (fl' : Flags) (N : List 
               simp only at hnone
               have hnk : x ∉ N.map (·.1) := by
                 rw [← mapGet_isSome_iff, hnone]; simp
-              rw [hN, ← hnms] at hnk
+              rw [hN x, ← hnms] at hnk
               rw [List.contains_eq_mem]
               simpa using hnk
             rw [this]; simp [hcn]
         simp only [hchk, Bool.false_eq_true, if_false]
-        refine ⟨⟨?_, ?_⟩, ?_, by simp⟩
+        refine ⟨⟨fun _ => ⟨?_, ?_⟩, fun _ => ?_⟩, ?_, by simp⟩
         · rintro ⟨nd, st1, he, _⟩; cases he
+        · rintro ⟨st, hst⟩; cases hst
         · rintro ⟨st, hst⟩; cases hst
         · intro st hst; cases hst
       · simp only
-        refine ⟨⟨?_, ?_⟩, ?_, by simp⟩
+        refine ⟨⟨fun _ => ⟨?_, ?_⟩, fun _ => ?_⟩, ?_, by simp⟩
         · rintro ⟨nd, st1, he, _⟩; cases he
+        · rintro ⟨st, hst⟩; cases hst
         · rintro ⟨st, hst⟩; cases hst
         · intro st hst; cases hst
 
